@@ -213,6 +213,12 @@ def check(wrapped):
             tmap[old[7:]] = new
         else:
             cmap[old] = new
+    # alphabetical flip: the new names sort in the REVERSE order of the old ones (anything that iterates over
+    # sorted(names) / a set of names instead of the order the user gave reacts to this)
+    if wrapped.get("flip_order") and len(cols) >= 2:
+        olds = sorted(cols)
+        news = sorted((cmap[o] for o in olds), reverse=True)
+        cmap.update(dict(zip(olds, news)))
     # name + suffix collisions: map one column onto "<other new name><suffix>"
     if wrapped.get("suffix_pair") and len(cols) >= 2:
         a, b = cols[0], cols[1]
@@ -303,8 +309,20 @@ def replay(check_name, wrapped):
     return f
 
 
-def wrapped_cases(cfg):
+def wrapped_cases(cfg, ordinary=False):
     pool = internal_names()
+    if ordinary:
+        # ordinary identifiers only: no recorded scratch-name capture can exclude an engine, every engine is compared on
+        # every case; what varies is the spelling and the alphabetical order of the names
+        plain = ORDINARY + ["zz_" + x for x in ORDINARY[:8]] + ["aa_" + x for x in ORDINARY[8:16]] + ["m1", "m2", "m10", "B", "a", "Z"]
+        return st.fixed_dictionaries(
+            {
+                "case": gen.programs(cfg),
+                "pool": st.lists(st.sampled_from(plain), min_size=30, max_size=40),
+                "suffix_pair": st.just(None),
+                "flip_order": st.booleans(),
+            }
+        )
     name_st = st.one_of(
         st.sampled_from(pool),
         st.sampled_from(pool),
@@ -318,6 +336,7 @@ def wrapped_cases(cfg):
             "case": gen.programs(cfg),
             "pool": st.lists(name_st, min_size=30, max_size=40),
             "suffix_pair": st.sampled_from([None, None] + SUFFIXES),
+            "flip_order": st.booleans(),
         }
     )
 
@@ -350,7 +369,7 @@ def run(ctx):
         f, info = check(w)
         fs = gen.features(w["case"])
         compared = [e for e in ("pandas", "polars", "sqlite") if info.get("compared_" + e)]
-        nt = bool(info.get("internal_hits")) and bool(compared)
+        nt = (bool(info.get("internal_hits")) or bool(w.get("flip_order"))) and bool(compared)
         ev.note(w, nt, fs + ["compared_" + e for e in compared], sample={"program": c01._sample(w["case"]), "internal_names_used": info.get("internal_hits")})
         for k in ("builder_rejected", "raised_pandas", "raised_polars", "raised_sqlite"):
             if info.get(k):
@@ -360,3 +379,8 @@ def run(ctx):
         return f
 
     ctx.campaign("main", wrapped_cases(cfg), oracle, max_examples=ctx.n(250, 32000))
+    # ordinary names, programs biased to steps whose semantics depend on a user-given column ORDER (multi-column order_by /
+    # order_rows / partition lists / join key lists)
+    ocfg = dict(cfg)
+    ocfg.update({"ops": {"ordered_window": 8, "order_rows": 4, "window": 3, "project": 3, "natural_join": 4, "extend": 3}, "final_order": 0.5, "extend_then_ordered_window_prob": 0.3})
+    ctx.campaign("ordinary_names", wrapped_cases(ocfg, ordinary=True), oracle, max_examples=ctx.n(200, 24000))
